@@ -387,10 +387,13 @@ class SE2(SO2):
 
         :seealso: :func:`spatialmath.base.transforms2d.trexp`, :func:`spatialmath.base.transformsNd.skew`
         """
-        if isinstance(S, (list, tuple)):
+        if isinstance(S, (list, tuple)) and not argcheck.isvector(S, 3):
+            # a list of twists or se(2) matrices (a list of three numbers is ONE twist vector)
             return cls([tr.trexp2(s) for s in S])
-        else:
+        elif argcheck.ismatrix(S, (3, 3)) or argcheck.isvector(S, 3):
             return cls(tr.trexp2(S), check=False)
+        else:
+            raise ValueError('expecting an se(2) matrix or a 3-vector')
 
     @staticmethod
     def isvalid(x, check=True):
